@@ -39,8 +39,42 @@ def ids(x, acc=None):
   return acc
 
 
+class NeverEqual:
+  """A value that is not equal to itself (like float('nan'))."""
+
+  def __eq__(self, other):
+    return False
+
+  def __hash__(self):
+    return 1
+
+
+NAN = float('nan')
+NEQ = NeverEqual()
+
+
+def _has_wrapper(x):
+  """True if a raw (unevaluated) arg-factory wrapper object is reachable in x."""
+  if isinstance(x, (list, tuple)):
+    return any(_has_wrapper(v) for v in x)
+  if isinstance(x, dict):
+    return any(_has_wrapper(v) for v in x.values())
+  return type(x).__name__ in ('_BuiltArgFactory', 'ArgFactory')
+
+
 def scenarios():
   S = {}
+  # a container without ArgFactory sitting next to one inside the same argument must be passed
+  # through uncopied, whatever its elements compare like
+  S['sibling-container-nan'] = (lambda: fdl.Partial(target, a=[fdl.ArgFactory(Fresh), [NAN, 1]]),
+                                {'a': 'fresh-first-same-second'})
+  S['sibling-container-neq'] = (lambda: fdl.Partial(target, a={'f': fdl.ArgFactory(Fresh), 'plain': [NEQ]}),
+                                {'a': 'fresh-f-same-plain'})
+  # nested factories bound by position (positional-only parameter, *args element)
+  S['posonly-nested-factory'] = (lambda: fdl.Partial(posonly_target, [fdl.ArgFactory(Fresh)], 5), {'a': 'fresh'})
+  S['posonly-dict-factory'] = (lambda: fdl.Partial(posonly_target, {'k': (fdl.ArgFactory(Fresh),)}), {'a': 'fresh'})
+  S['varargs-nested-factory'] = (lambda: fdl.Partial(posonly_target, 1, 2, 3, [fdl.ArgFactory(Fresh)], 9),
+                                 {'args': 'fresh'})
   # (config factory, predicate describing which argument slots must be fresh per call)
   S['factory-direct'] = (lambda: fdl.Partial(target, a=fdl.ArgFactory(Fresh)), {'a': 'fresh'})
   S['factory-in-list'] = (lambda: fdl.Partial(target, a=[fdl.ArgFactory(Fresh), 1]), {'a': 'fresh'})
@@ -74,6 +108,8 @@ def check_scenario(name):
     vals = [o[slot] for o in outs]
     idsets = [set(ids(v)) for v in vals]
     if mode == 'fresh':
+      if _has_wrapper(vals[0]):
+        bad(f'slot {slot}: the ArgFactory was not evaluated (raw factory wrapper passed through)')
       for i, j in itertools.combinations(range(3), 2):
         if idsets[i] & idsets[j]:
           bad(f'slot {slot}: an ArgFactory argument (or its container) was reused between calls')
@@ -88,17 +124,27 @@ def check_scenario(name):
         bad(f'slot {slot}: a container without ArgFactory was copied per call')
       if ids(vals[0]) != ids(vals[1]):
         bad(f'slot {slot}: nested containers without ArgFactory were copied per call')
+    elif mode == 'fresh-first-same-second':
+      if vals[0][0] is vals[1][0]:
+        bad(f'slot {slot}: ArgFactory result reused between calls')
+      if not (vals[0][1] is vals[1][1] is vals[2][1]):
+        bad(f'slot {slot}: a container without ArgFactory (next to a factory) was copied per call')
+    elif mode == 'fresh-f-same-plain':
+      if vals[0]['f'] is vals[1]['f']:
+        bad(f'slot {slot}: ArgFactory result reused between calls')
+      if not (vals[0]['plain'] is vals[1]['plain'] is vals[2]['plain']):
+        bad(f'slot {slot}: a container without ArgFactory (next to a factory) was copied per call')
     elif mode == 'fresh-outer-shared-inner':
       if vals[0] is vals[1]:
         bad(f'slot {slot}: ArgFactory result reused')
       if vals[0].a[0] is not vals[1].a[0]:
         bad(f'slot {slot}: a Config inside an ArgFactory was rebuilt per call')
   # call-time keywords override configured ones
-  okey = 'k' if name in ('positional-factory', 'varargs-factory') else 'c'
+  okey = 'k' if 'posonly' in name or name in ('positional-factory', 'varargs-factory', 'varargs-nested-factory') else 'c'
   o = built(**{okey: 'override'})
   if o[okey] != 'override':
     bad('call-time keyword did not override the configured argument')
-  if 'a' in expect and 'args' not in expect and name not in ('positional-factory',):
+  if 'a' in expect and 'args' not in expect and 'posonly' not in name and name not in ('positional-factory',):
     o2 = built(a='A!')
     if o2['a'] != 'A!':
       bad('call-time keyword did not override a configured (factory) argument')
